@@ -9,6 +9,7 @@ KEYS = [
     "doctrans.docstring_parsers:_set_param_values",
     "doctrans.defaults_utils:_remove_default_from_param",
     "doctrans.pure_utils:update_d",
+    "doctrans.docstring_utils:emit_param_str",
 ]
 
 
